@@ -52,7 +52,14 @@ func addNumbers(n0, n1 slip.Object) slip.Object {
 	n0, n1 = slip.NormalizeNumber(n0, n1)
 	switch t0 := n0.(type) {
 	case slip.Fixnum:
-		n1 = t0 + n1.(slip.Fixnum)
+		t1 := n1.(slip.Fixnum)
+		sum := t0 + t1
+		if (0 < t0 && 0 < t1 && sum < 0) || (t0 < 0 && t1 < 0 && 0 <= sum) {
+			// Overflow so continue as bignums.
+			n1 = (*slip.Bignum)(new(big.Int).Add(big.NewInt(int64(t0)), big.NewInt(int64(t1))))
+		} else {
+			n1 = sum
+		}
 	case slip.SingleFloat:
 		n1 = t0 + n1.(slip.SingleFloat)
 	case slip.DoubleFloat:
